@@ -111,8 +111,11 @@ OnCall ==
                                /\ m \notin answeredN /\ m \notin away /\ replied[m] = 0)
         => Verdict("C08", "taggroup-overlap", <<E.n, sent[E.n].tag>>))
   /\ called' = Append(called, E.n)
-  /\ live' = live \cup ({E.fid, E.newfid, E.afid} \ {-1})
-  /\ maybe' = maybe \ {E.fid, E.newfid, E.afid}
+  \* only a call that shows a NEW fid makes it live (attach: fid; walk to a new fid: newfid); an
+  \* operation on a fid already destroyed at the disconnect does not resurrect it
+  /\ LET made == (IF E.op = "attach" THEN {E.fid} ELSE IF E.op = "walk" /\ E.newfid # E.fid THEN {E.newfid} ELSE {}) \ {-1} IN
+     /\ live' = live \cup made
+     /\ maybe' = maybe \ made
   /\ UNCHANGED <<sent, replied, away, answers, answeredN, nclosed, cclosed>>
 
 OnAnswer ==
@@ -123,7 +126,7 @@ OnAnswer ==
 OnDestroy ==
   /\ IF E.fid \in live THEN /\ live' = live \ {E.fid} /\ maybe' = maybe \ {E.fid}
      ELSE IF E.fid \in maybe THEN /\ maybe' = maybe \ {E.fid} /\ UNCHANGED live
-     ELSE /\ Verdict("C11", "double-destroy", <<E.fid, IF cclosed THEN "after-disconnect" ELSE "connected">>)
+     ELSE /\ Verdict(IF cclosed THEN "C11" ELSE "C04", "double-destroy", <<E.fid, IF cclosed THEN "after-disconnect" ELSE "connected">>)
           /\ UNCHANGED <<live, maybe>>
   /\ UNCHANGED <<sent, replied, away, answers, called, answeredN, nclosed, cclosed>>
 
@@ -189,6 +192,9 @@ OnBystander ==   \* a request on another connection, driven with this connection
   /\ (~E.ok => Verdict(IF cclosed THEN "C11" ELSE "C08", "bystander-disturbed", E.what))
   /\ UNCHANGED <<sent, replied, away, answers, called, answeredN, live, maybe, nclosed, cclosed>>
 
+OnInitFid == /\ live' = live \cup {E.fid}
+             /\ UNCHANGED <<sent, replied, away, answers, called, answeredN, maybe, nclosed, cclosed>>
+
 OnLeftover ==
   /\ Verdict("C11", "goroutines-left", E.what)
   /\ UNCHANGED <<sent, replied, away, answers, called, answeredN, live, maybe, nclosed, cclosed>>
@@ -212,6 +218,7 @@ Next ==
                   [] E.ev = "end" -> OnEnd
                   [] E.ev = "leftover" -> OnLeftover
                   [] E.ev = "crash" -> OnCrash
+                  [] E.ev = "initfid" -> OnInitFid
                   [] E.ev = "bystander" -> OnBystander
                   [] OTHER -> Skip
   \/ /\ i = Len(Ext) + 1 /\ ~done /\ done' = TRUE
